@@ -414,13 +414,12 @@ def reference():
     ref = {}
     # /* ... */ : ends with the first "*/" that starts at offset >= 2
     ref['MULTI_LINE_COMMENT'] = cat(lit('/*'), inter(cat(ALL, lit('*/')), comp(cat(ALL, lit('*/'), plus(ANY)))))
-    # // and # comments run up to and including the end of the line (or the end of the text);
-    # a "\r\n" line end belongs to the line end. A lone CR is not a line end in the specification
-    # (see DESIGN: recorded difference) — the reference below is the one all three parsers share:
-    # no CR/LF inside, optional "\n" or "\r\n" at the end.
-    noeol = cset(SIGMA - {10, 13})
+    # // and # comments run up to and including the next "\n" (or the end of the text). A carriage return is an
+    # ordinary character of the comment: the specification (and the legacy PEG grammar: `(!eol()[_])* eol()` with
+    # eol = "\n" / eof) knows no other line end.
+    nonl = cset(SIGMA - {10})
     for k, start in (('SINGLE_LINE_SLASH_COMMENT', '//'), ('SINGLE_LINE_HASH_COMMENT', '#')):
-        ref[k] = cat(lit(start), star(noeol), opt(alt(lit('\n'), lit('\r\n'))))
+        ref[k] = cat(lit(start), star(nonl), opt(lit('\n')))
     # number: JSON number grammar, digit groups may be separated by single underscores
     digits = cat(plus(DIGIT), star(cat(lit('_'), plus(DIGIT))))
     intpart = alt(lit('0'), cat(DIGIT19, star(DIGIT), star(cat(lit('_'), plus(DIGIT)))))
@@ -604,7 +603,13 @@ def c06_lexer_job(tier):
                 w = model.get('s', '')
                 # the model says: the real lexer does (not) take w as one token of this kind
                 reproduced, sh = replay_kind(kind, w, want_member=(direction == 'spec_subset_of_lexer'))
-                role = f'{label}:{w.encode("unicode_escape").decode()}'
+                cls = None
+                if kind.startswith('SINGLE_LINE') and re.search(r'\r(?!\n)', w):
+                    # one class of witnesses (a CR that is not part of CRLF inside the comment): exclude the class, so
+                    # that a listed known finding cannot mask a different violation of the same query
+                    cls = 'lone_cr'
+                    excl += f'(assert (not (str.in_re s {cat(ALL, lit(chr(13)), opt(cat(cset(SIGMA - {10}), ALL)))})))\n'
+                role = f'{label}:{cls or w.encode("unicode_escape").decode()}'
                 detail = (f'text {w!r}: specification says {"one " + kind + " token" if direction == "spec_subset_of_lexer" else "not a " + kind + " token"}; '
                           f'real lexer: {sh.get("lex")}; ir parser: {sh.get("ir")}; peg parser: {sh.get("peg")}; rowan: {sh.get("rowan")}')
                 desc = f'{label} [{w.encode("unicode_escape").decode()}]'
